@@ -17,6 +17,7 @@
 import EmitModel.Lemmas.BatcherCover
 import EmitModel.Lemmas.BatcherExt
 import EmitModel.Model.OtlpE2E
+import EmitModel.Lemmas.FilePipe
 
 namespace EmitModel.C07
 open EmitModel.Batcher EmitModel.Sched
@@ -249,4 +250,48 @@ theorem otlp_flush_false_if_busy (l t m : SigState) (s : SigState) (hs : s ∈ [
   | false => rfl
   | true => have := (otlp_flush_true_iff l t m).mp h s hs hc; simp [hb] at this
 
+end EmitModel.C07
+
+/-! ### Carry-through to the rolling-file emitter (Model/FilePipe.lean: the channel with the file worker as its processor) -/
+namespace EmitModel.C07
+open EmitModel.Batcher EmitModel.Sched EmitModel.FileSet
+
+/-- **A successful flush of the file emitter means written and synced.** In every execution of the rolling-file
+    emitter as a whole — any interleaving of sends, flush requests, hand-offs, callbacks, retry waits and drops,
+    with every conclusion of an `on_batch` call being what the file worker does on the held batch under ANY fault
+    plan (errors and short writes at any filesystem call) — once the callback of flush watcher `w` has run, every
+    item accepted before the flush was requested is: cleared by a counted overflow truncation; or part of a batch
+    the worker gave up (`no_retry`, or the retry budget ran out — `failed`); or KEPT: its event is complete, on a
+    record boundary, in the synced content of a durable file of the set (unless the worker's own retention has
+    deleted that file since the batch began). In particular an event written by an attempt that later failed is
+    synced too (D19). Receiver alive, as in `flush_sound`. -/
+theorem file_flush_means_synced (cfg : FilePipe.Cfg) (E : List Nat → Prop) (c : Nat) (hsep : cfg.file.sep = [c])
+    (hwf : WfEvents E c) (hev : ∀ x, E (cfg.ev x)) (fs0 : FileSet.St) (h0 : FileSet.Inv cfg.file E c fs0)
+    (s : FilePipe.St) (h : FilePipe.Reachable cfg fs0 s) (hn : s.ch.registered.Nodup) (ht : s.ch.tornDown = false)
+    (w : Nat) (acc : List Nat) (ha : (w, acc) ∈ s.ch.acceptedAt) (hf : w ∈ s.ch.fired) :
+    ∀ x ∈ acc, x ∈ s.ch.truncations.flatten ∨ x ∈ s.failed ∨
+      ∃ L, L ≤ s.fs.log.length ∧ Kept cfg.file c L (cfg.ev x) s.fs := by
+  intro x hx
+  have hp := FilePipe.pinv_reachable hsep hwf hev fs0 h0 s h
+  rcases flush_sound_accepted cfg.ch s.ch (FilePipe.reachable_proj cfg fs0 s h) hn ht w acc ha hf x hx with hfin | htr
+  · rcases hp.fin x hfin with hfail | ⟨L, hL⟩
+    · exact .inr (.inl hfail)
+    · exact .inr (.inr ⟨L, (hp.okd _ hL).1, (hp.okd _ hL).2⟩)
+  · exact .inl htr
+
+/-- non-vacuity: two events, the write of the second fails once, the retry goes to a new file; the flush callback
+    registered before the hand-off fires after the retry, and both events are in synced content -/
+private def pcfg : FilePipe.Cfg :=
+  { ch := Batcher.Cfg.real 10,
+    file := { pfx := [97], ext := [108], rollBy := .minute, reuse := false, maxFiles := 3, maxSize := 100, sep := [10] },
+    ev := fun x => [97 + x, 10],
+    plan := fun i => if i = 5 then .err else .ok }
+private def pnow : Parts := { years := 2024, months := 1, days := 1, hours := 0, minutes := 0, seconds := 0, nanos := 0 }
+private def plabels : List FilePipe.Label :=
+  [.chan (.send 0), .chan (.send 1), .chan (.whenFlushed 7), .chan .rxTake, .chan .rxBegin, .process pnow 7,
+   .chan .rxRetryWaited, .process pnow 8, .chan .rxFireFlush]
+
+example : ((Sched.run (FilePipe.step pcfg) (FilePipe.init emptyState) plabels).map fun s =>
+    (s.ch.fired, s.ch.acceptedAt, s.failed, s.okd, s.fs.fs.map (·.2.synced), s.ch.tornDown)) =
+    some ([7], [(7, [0, 1])], [], [(0, 0), (1, 0)], [[97, 10], [98, 10]], false) := by rfl
 end EmitModel.C07
